@@ -159,7 +159,13 @@ pub proof fn lemma_default_step(e0: Env, e: Env, e2: Env)
     }
     assert forall|k: Seq<char>| not_a_setting(k) implies (#[trigger] e2.contains_key(k) <==> e0.contains_key(k)) && (e0.contains_key(k) ==> e2[k] == e0[k]) by {
         assert(k != s_var(i));
+        assert(e2.contains_key(k) <==> e.contains_key(k));
+        assert(e.contains_key(k) ==> e2[k] == e[k]);
     }
+    assert forall|k: Seq<char>| e0.contains_key(k) implies #[trigger] e2.contains_key(k) by { assert(e.contains_key(k)); }
+    assert forall|k: Seq<char>| e.contains_key(k) implies #[trigger] e2.contains_key(k) by { }
+    assert(dom_grows(e, e2));
+    assert(partial_defaults(e0, e2));
 }
 pub proof fn lemma_partial_final(e0: Env, e: Env)
     requires partial_defaults(e0, e), forall|i: int| 0 <= i < 11 ==> e.contains_key(#[trigger] s_var(i)),
@@ -172,7 +178,7 @@ pub open spec fn with_default(e: Env, i: int) -> Env { if e.contains_key(s_var(i
 // ----- the configuration file (read_config_file): lines -> words -----
 pub open spec fn squeeze(line: Seq<char>) -> Seq<char> {      // strip_comment, then strip_whitespaces
     let so = split_once_spec(line, seq!['#']);
-    without_char(if so.is_none() { line } else { trim_spec(so.unwrap().0) }, ' ')
+    without_char(without_char(if so.is_none() { line } else { trim_spec(so.unwrap().0) }, ' '), '\t')     // TOML white space: space and tab
 }
 pub open spec fn table_of(ww: Seq<char>) -> Seq<char> { without_char(without_char(ww, '['), ']') }
 pub open spec fn clean_value(v: Seq<char>) -> Seq<char> { without_char(without_char(without_char(without_char(v, '\''), '"'), ']'), '[') }
